@@ -36,6 +36,15 @@ Definition C34_statement : Prop :=
         | OErr => Failed
         | OUnsup => Unsupported
         end)
+  (* where no file can be placed (hard links across devices without fallback) a tree that holds a
+     regular file is never reported as copied, whatever the destination held *)
+  /\ (forall (k : cfg) (w : world) (a b : str) (src : node),
+        assoc a w = Some src -> placeable k = false -> has_file src = true ->
+        forall dst, copy_top k w a b <> Done dst)
+  (* whatever the destination held before (a stale copy, an earlier hard-linked copy, anything):
+     a successful call changes nothing but `to` - in particular not the source *)
+  /\ (forall (k : cfg) (w : world) (a b : str) (dst : node),
+        copy_top k w a b = Done dst -> forall x, x <> b -> assoc x (set b dst w) = assoc x w)
   (* the two wrappers used by the callers always allow a file to be placed (argument tuples
      regenerated from copy.go): RecursiveCopy never links and passes its mode on, RecursiveLink
      links with fallback *)
@@ -44,7 +53,8 @@ Definition C34_statement : Prop :=
 
 Theorem C34_full : C34_statement.
 Proof.
-  exact (conj faithful (conj top_link_followed (conj recursive_copy_cfg recursive_link_cfg))).
+  exact (conj faithful (conj top_link_followed (conj unplaceable_never_done (conj only_destination_written
+        (conj recursive_copy_cfg recursive_link_cfg))))).
 Qed.
 Print Assumptions C34_full.
 
@@ -85,4 +95,13 @@ Example C34_nonvacuous_toplink :
   /\ copy_top (recursive_copy 0) w (s "self") (s "dst") = Failed
   /\ copy_top (recursive_copy 0) w (s "tod") (s "dst") = Failed
   /\ copy_top (recursive_link true) w (s "l") (s "dst") = Done (Link (s "f")).
+Proof. vm_compute. repeat split. Qed.
+
+(* an existing destination that is an earlier hard-linked copy: RecursiveCopy replaces the files by
+   new inodes (temp file + rename), the source keeps its inode, mode and contents *)
+Example C34_nonvacuous_existing :
+  let w := [ (s "dst", Dir [ (s "f", File 1 420 (s "x")) ]); (s "src", Dir [ (s "f", File 1 420 (s "x")) ]) ]%N in
+  copy_top (recursive_copy 292) w (s "src") (s "dst") = Done (Dir [ (s "f", File 0 292 (s "x")) ])%N
+  /\ assoc (s "src") (set (s "dst") (Dir [ (s "f", File 0 292 (s "x")) ]) w) = Some (Dir [ (s "f", File 1 420 (s "x")) ])%N
+  /\ copy_top (recursive_link true) w (s "src") (s "dst") = Done (Dir [ (s "f", File 0 420 (s "x")) ])%N.
 Proof. vm_compute. repeat split. Qed.
